@@ -147,7 +147,11 @@ def generate(seed: int, tier: str = "quick") -> dict:
         b = rp.randint(0, len(bars) - 1)
         program.append({"bar": b, "phase": "on_bar", "op": "deribit.withdraw", "m": "drb0", "a": {"amount": {"f": "cash:drb0", "x": "0.2"}}})
     program.sort(key=lambda o: (o["bar"], PHASE_ORDER.index(o["phase"])))
-    return {"property": ID, "seed": seed, "world": world, "program": program, "faults": faults}
+    sc = {"property": ID, "seed": seed, "world": world, "program": program, "faults": faults}
+    if R.sub(seed, "earlier_run").random() < 0.08:
+        sc["opts"] = {"earlier_run": True}
+        faults.append({"kind": "market_objects_served_an_earlier_run_on_other_books"})
+    return sc
 
 
 after_truncate = W.after_truncate
@@ -404,8 +408,43 @@ def _snap_s(s):
 
 
 # --------------------------------------------------------------------------------------------------- execution
+def _sim_after_an_earlier_run(scenario, ox):
+    """The market objects first serve an idle back test over OTHER books for the same hours (underlying 10 % lower, marks
+    halved), then get this scenario's frames through the public `data` setter and run the scenario on a fresh actuator:
+    what is settled follows the books the market holds now."""
+    import copy
+    from decimal import Decimal as _D
+
+    def scaled(x, f):
+        y = _D(str(x)) * _D(f)
+        return format(y, "f") if isinstance(x, str) else (float(y) if isinstance(x, float) else type(x)(y))
+
+    sa = copy.deepcopy({k: v for k, v in scenario.items() if k not in ("program", "expect", "minimised")})
+    sa["program"] = []
+    for m in sa["world"]["markets"]:
+        if m.get("kind") != "deribit":
+            continue
+        for h in m["hours"]:
+            for row in h["rows"].values():
+                row["underlying"] = scaled(row["underlying"], "0.9")
+                row["mark"] = scaled(row["mark"], "0.5")
+    earlier = Sim(sa, None).run()
+    if earlier.crash is not None:
+        return None
+    own = Sim(scenario, None)  # never run: only the frames its builders made are used
+    frames = {name: mk.data for name, mk in own.markets.items()}
+    sim = Sim(scenario, ox, reuse=earlier, prebuilt=frames)
+    sim.mdata = dict(own.mdata)
+    sim.count("fault:market_objects_served_an_earlier_run_on_other_books")
+    return sim
+
+
 def execute(scenario) -> Sim:
-    sim = Sim(scenario, SettleOracle())
+    sim = None
+    if scenario.get("opts", {}).get("earlier_run"):
+        sim = _sim_after_an_earlier_run(scenario, SettleOracle())
+    if sim is None:
+        sim = Sim(scenario, SettleOracle())
     sim.run()
     w = scenario["world"]
     only = all(m["kind"] == "deribit" for m in w["markets"])
